@@ -137,6 +137,22 @@ def gen(tier, seed):
                 yield {'zone': z, 'north': round(n, 4), 'easts': [round(e, 4)], 'heights': [None, 10.0], 'mode': 'boundary-' + nb}
 
 
+    # inputs chosen so that the TRANSFORMED position lands a fraction of a millimetre west / east of a zone boundary (the condition is
+    # on the output: the input is obtained by carrying the target back through the definition with the opposite parameters)
+    for z in (49, 52, 55):
+        for lat in (-12.0, -25.3, -33.9, -42.8):
+            for direction in ('fwd', 'back'):
+                for off in (-2e-9, -4.5e-9, 2e-9, -1.2e-8):
+                    lon_t = cm(z) + 3.0 + off
+                    p_inv, _ = par('back' if direction == 'fwd' else 'fwd')
+                    xyz_t = om.llh2xyz_mp(lat, lon_t, 0.0, A_GRS, F_GRS)
+                    xyz_i = om.helmert_mp(xyz_t, p_inv)
+                    la_i, lo_i, _h = om.xyz2llh_mp(xyz_i[0], xyz_i[1], xyz_i[2], A_GRS, F_GRS)
+                    zi = natural_zone(float(lo_i))
+                    e, n = geo_to_grid(float(la_i), float(lo_i), zi)
+                    yield {'zone': zi, 'north': round(n, 4), 'easts': [round(e, 4)], 'heights': [None], 'mode': 'boundary-target-%s' % direction}
+
+
 def cart_of(zone, e, n, h):
     lat, lon = grid_to_geo(zone, e, n)
     return [float(v) for v in om.llh2xyz_mp(lat, lon, h, A_GRS, F_GRS)], lat, lon
